@@ -911,7 +911,10 @@ def prop_c07unknown(k, bs, es, ephs, ephs2, keep):
     blist = parse_blocks(bs)
     if key[3] % 2:
         # a block of a kind this version does not know at all (a tag outside the class map), anywhere in the header
-        blist.insert(key[4] % (len(blist) + 1), UnknownAuthBlock([0x04, 0x7F, 0xFE, 0x10][key[5] % 4], bytes(key[6:6 + key[7] % 9]) * 3))
+        # tag 00 with a value is an ordinary block too (only 00 00 ends the list)
+        utag = [0x04, 0x7F, 0xFE, 0x10, 0x00][key[5] % 5]
+        uval = bytes(key[6:6 + key[7] % 9]) * 3
+        blist.insert(key[4] % (len(blist) + 1), UnknownAuthBlock(utag, uval if (utag or uval) else b"\xaa\xbb\xcc"))
     with Oracle(parse_nats(ephs)):
         f0 = Bec2File(Bf3File(), blist, key)
         a = f0.to_binary(wencs)
